@@ -236,6 +236,13 @@ class GroupNode(SyntaxNode):
         subs = []
         for node in self.nodes:
             subq = node.query(parser)
+            # A sub-group nothing is left of (empty parentheses, stop words
+            # only) is gone like a removed word; it is not a clause that
+            # matches nothing
+            if (isinstance(node, GroupNode)
+                and isinstance(subq, query.compound.CompoundQuery)
+                and not subq.subqueries):
+                continue
             if subq is not None:
                 subs.append(subq)
 
